@@ -87,6 +87,8 @@ type Exec struct {
 	pathCovers []string
 	lastInstr  string
 	hashOf     map[int]*Term
+	hashedNodes []hashedNode
+	doms map[string]*varDom
 	curInstr   ssa.Instruction
 	curFn      *ssa.Function
 	lastPanic  *goPanic
@@ -147,6 +149,7 @@ func (ex *Exec) assert(t *Term) {
 		return
 	}
 	ex.pcCount++
+	ex.noteAssert(t)
 	ex.solver.Send("(assert " + t.SMT() + ")")
 }
 
@@ -169,6 +172,28 @@ func (ex *Exec) branch(cond *Term) bool {
 		panic(pathEnd{"inconclusive", fmt.Sprintf("decision bound %d reached (unwinding bound too small)", ex.eng.maxDecisions)})
 	}
 	ex.h.stats.Branches++
+	// unit literal on a variable that is still independent of all others: decided on its domain
+	if ft, ff, ok := ex.unitDecide(cond); ok {
+		ex.h.stats.UnitDecided++
+		switch {
+		case ft && ff:
+			ex.decisions = append(ex.decisions, decision{choice: true, hasAlt: true})
+			ex.pos++
+			ex.assert(cond)
+			return true
+		case ft:
+			ex.decisions = append(ex.decisions, decision{choice: true})
+			ex.pos++
+			ex.assert(cond)
+			return true
+		case ff:
+			ex.decisions = append(ex.decisions, decision{choice: false})
+			ex.pos++
+			ex.assert(mkNot(cond))
+			return false
+		}
+		ex.prune("unit domain empty")
+	}
 	rt := ex.solver.CheckWith(cond)
 	if rt == "unknown" {
 		ex.h.noteUnknown("branch feasibility: " + trunc(cond.SMT(), 200))
@@ -404,13 +429,13 @@ func instrPos(in ssa.Instruction) token.Pos {
 
 // callFunction runs fn to completion and returns its result.
 func (ex *Exec) callFunction(fn *ssa.Function, args []Value, env []Value) (result Value) {
+	if fn.Pkg != nil {
+		ex.eng.buildPkg(fn.Pkg)
+	} else if o := fn.Origin(); o != nil && o.Pkg != nil {
+		ex.eng.buildPkg(o.Pkg)
+	}
 	if fn.Blocks == nil {
-		if fn.Pkg != nil {
-			ex.eng.buildPkg(fn.Pkg)
-		}
-		if fn.Blocks == nil {
-			ex.unsupported("call to function without body: " + fn.String())
-		}
+		ex.unsupported("call to function without body: " + fn.String())
 	}
 	ex.depth++
 	if ex.depth > 400 {
